@@ -1550,6 +1550,8 @@ func runC10(r *Rng, tier string, n int) {
 			exp: uint32(r.Next()), incep: uint32(r.Next()), keytag: uint16(r.Next()), signer: randName(r, 0, 3, 8)}
 		canonCase(r, sf, rs, i < 700)
 	}
+	// one-octet name pairs in every name comparison of Verify; RRSIG / RRset / DNSKEY values used for several calls
+	runRound4(r, tier, keys)
 	for t := uint16(0); t < 70; t++ {
 		Emit("lowered", []string{Itoa(int(t))}, Btoa(codeLower[t]))
 	}
